@@ -746,6 +746,11 @@ func main() {
 	add("flush", []any{strings.Repeat("x", 8185)})
 	add("flush", []any{strings.Repeat("x", 8186)})
 	add("flush", []any{strings.Repeat("x", 8187)})
+	// longer than the 8 KiB buffer WITH escapes inside (an escape must stay where it stands)
+	add("flush", strings.Repeat("a", 5000)+"\n"+strings.Repeat("b", 5000))
+	add("flush", []any{strings.Repeat("x\"y", 3000)})
+	add("flush", map[string]any{strings.Repeat("k", 8200) + "\tq": strings.Repeat("v", 8190) + "\\w"})
+	add("flush", strings.Repeat("é", 4100)+"\x00z\xff")
 	add("flush", strings.Repeat("x", 8190))
 	add("flush", strings.Repeat("x", 8191))
 	add("flush", deepValue(40, 2, wideValue(r, 300, 0)))
